@@ -470,16 +470,26 @@ class Interp(object):
         return "next", (st["Next"], out)
 
     def in_path(self, st, data, ctx):
+        if data is None:
+            self.facts["null_docs"] = self.facts.get("null_docs", 0) + 1
         try:
-            return apply_path(data, ctx, st.get("InputPath", "$"))
+            v = apply_path(data, ctx, st.get("InputPath", "$"))
         except NoMatch:
             raise StateError("States.Runtime")
+        if v is None:
+            self.facts["null_docs"] = self.facts.get("null_docs", 0) + 1
+        return v
 
     def out_path(self, st, data, ctx):
+        if data is None:
+            self.facts["null_docs"] = self.facts.get("null_docs", 0) + 1
         try:
-            return apply_path(data, ctx, st.get("OutputPath", "$"))
+            v = apply_path(data, ctx, st.get("OutputPath", "$"))
         except NoMatch:
             raise StateError("States.Runtime")
+        if v is None:
+            self.facts["null_docs"] = self.facts.get("null_docs", 0) + 1
+        return v
 
     def template(self, tpl, data, ctx):
         try:
